@@ -124,6 +124,17 @@ class Analysis:
     def callees(self, call: ast.Call) -> List[str]:
         return self.res.callees(call)
 
+    def _enum_member(self, e: ast.expr) -> bool:
+        """`Cls.MEMBER` where Cls is a project class deriving from enum.Enum (plain Enum: == is identity)."""
+        if not (isinstance(e, ast.Attribute) and isinstance(e.value, ast.Name)):
+            return False
+        cache = getattr(self, "_enum_classes", None)
+        if cache is None:
+            cache = {c.name for c in self.prog.classes.values()
+                     if any(norm(b) in ("enum.Enum", "Enum") for b in c.node.bases)}
+            self._enum_classes = cache
+        return e.value.id in cache
+
     def kw(self, call: ast.Call, name: str) -> Optional[ast.expr]:
         """The argument bound to parameter `name`: the keyword, or — calls are kept in canonical positional form —
         the positional argument at that parameter's place in the callee's signature."""
@@ -621,6 +632,9 @@ class Analysis:
                 return ("in(%s,%s)" % (tx(l), tx(r)), isinstance(op, ast.In))
             if isinstance(op, (ast.Is, ast.IsNot)):
                 a, b = sorted([tx(l), tx(r)])
+                # members of an Enum are singletons: identity and equality with a member are the same test
+                if self._enum_member(l) or self._enum_member(r):
+                    return ("eq(%s,%s)" % (a, b), isinstance(op, ast.Is))
                 return ("is(%s,%s)" % (a, b), isinstance(op, ast.Is))
         if isinstance(e, ast.Constant):
             return ("const", bool(e.value))
@@ -940,6 +954,19 @@ class _Rename(ast.NodeTransformer):
         if n.id in self.ren:
             return ast.copy_location(ast.Name(id=self.ren[n.id], ctx=n.ctx), n)
         return n
+
+
+def pathparts(e: ast.expr) -> List[str]:
+    """Components of a path-building expression: `pathlib.Path(a, b)`, `Path(a) / b` and `a / b` are all [a, b]."""
+    if isinstance(e, ast.BinOp) and isinstance(e.op, ast.Div):
+        return pathparts(e.left) + pathparts(e.right)
+    if isinstance(e, ast.Call) and norm(e.func) in ("pathlib.Path", "Path", "pathlib.PurePath") and e.args and not e.keywords \
+            and not any(isinstance(a, ast.Starred) for a in e.args):
+        out: List[str] = []
+        for a in e.args:
+            out.extend(pathparts(a))
+        return out
+    return [norm(e)]
 
 
 def strparts(e: ast.expr) -> Optional[List[str]]:
